@@ -651,6 +651,80 @@ def run_contract(eng, c, clause_filter=None):
     return res
 
 
+def sample_contract(eng, c, max_cases=4, per_case=2):
+    """BOUNDED companion of a contract: concrete inputs satisfying its precondition (one typed case per
+    explored input path, `per_case` solver models each, the later ones pushed away from the earlier values),
+    as witness dictionaries ready for the native replay, which runs the REAL function on them and evaluates
+    every clause of the contract.  Nothing of the target is executed here."""
+    from .solve import extract_model
+    from .engine import Oblig
+    label = "%s/%s" % (c.prop, c.short)
+    target = c.target_obj
+    out = []
+
+    def thunk(ctx):
+        ctx.proof_label = label
+        ctx.cur_fn = target if (not isinstance(target, type) and c.call is None) else None
+        ctx.cur_contract = c
+        ns = {}
+        for key, shape in c.state.items():
+            owner, attr = key
+            val = shape.make(ctx, "%s.%s" % (getattr(owner, "__name__", str(owner)), attr))
+            if isinstance(owner, type):
+                ctx.class_overlay[(owner, attr)] = val
+            else:
+                ctx.module_overlay[(owner, attr)] = val
+            ns["state_" + attr] = val
+        for p, shape in c.args.items():
+            ns[p] = shape.make(ctx, p)
+        if c.setup is not None:
+            c.setup(ctx, ns)
+        ctx.entry_ns = dict(ns)
+        for g in [p for p in c.args if p.startswith("_")]:
+            ctx.ghost[g] = ns[g]
+        if c.setup_spec is not None:
+            ctx.call_spec(c.setup_spec, ns)
+        if c.requires is not None:
+            ctx.assume(ctx.as_goal(ctx.call_spec(c.requires, ns)))
+        for fid, region in c.regions.items():
+            ctx.assume(z3.Not(ctx.as_goal(ctx.call_spec(region, ns))))
+        ctx.witness_ns = {p: (c.args[p], ns[p]) for p in c.args}
+        ctx.witness_state = {"%s:%s" % (getattr(k[0], "__module__", "") + "." + getattr(k[0], "__qualname__", getattr(k[0], "__name__", "")), k[1]): (sh, ns["state_" + k[1]])
+                             for k, sh in c.state.items()}
+        prev = []
+        for i in range(per_case):
+            extra = []
+            if prev:
+                diff = []
+                for nm, term in list(ctx.inputs.items())[:40]:
+                    v = prev[-1].get(nm)
+                    try:
+                        if isinstance(v, bool):
+                            diff.append(term != z3.BoolVal(v))
+                        elif isinstance(v, int):
+                            diff.append(term != z3.IntVal(v))
+                    except Exception:  # noqa
+                        pass
+                if diff:
+                    extra = [z3.Or(*diff)] if i % 2 else [z3.And(*diff)]
+            r = ctx._check(*extra)
+            if r != z3.sat and extra:
+                r = ctx._check()
+                if prev:
+                    break
+            if r != z3.sat:
+                break
+            model = extract_model(ctx, ctx.solver.model())
+            prev.append(model)
+            ob = Oblig("%s/sample" % label, "refuted", model, 0.0, "z3", {})
+            w = make_witness(ctx, c, ob)
+            w["obligation"] = "%s/sample" % label
+            out.append(w)
+
+    ctxs = explore(eng, thunk, max_paths=max_cases)
+    return out[:max_cases * per_case]
+
+
 def make_witness(ctx, c, ob):
     vals = dict(ob.model or {})
     vals["__choices__"] = dict(ctx.shape_choice)
